@@ -91,6 +91,28 @@ def fn_body(src, fn):
     if not m: raise ValueError("function not found")
     return block_after(src[m.start():], "fn", "{", "}") if False else block_after(src, src[m.start():m.end()], "{", "}")
 
+def decl_order(src, ty):
+    """variants of `enum ty { … }` in declaration order (unit variants; attributes and comments skipped)"""
+    m = re.search(r"\benum\s+" + re.escape(ty) + r"\s*\{", src)
+    if not m: return None
+    body = block_after(src, src[m.start():m.end() - 1], "{", "}")
+    body = re.sub(r"#\[[^\]]*\]", "", body)
+    return [v for v in re.findall(r"\b([A-Z]\w*)\b\s*(?:\([^)]*\))?\s*(?:=\s*[^,]+)?\s*(?:,|$)", body)]
+
+def canon_to_str(arms, order):
+    """`Self::V => "text"` arms: the patterns are distinct variants, so the order of the arms is irrelevant; canonical order = the
+    enum declaration (kept as in the source when a variant is repeated or unknown)"""
+    vs = [a for a, _ in arms]
+    if order is None or len(set(vs)) != len(vs) or any(v not in order for v in vs): return arms
+    return sorted(arms, key=lambda a: order.index(a[0]))
+
+def canon_from_str(arms, order):
+    """`"text" => V` arms: with pairwise distinct literal patterns the order of the arms is irrelevant; canonical order = the
+    declaration order of the variant (stable: several spellings of one variant keep their source order)"""
+    ts = [t for t, _ in arms]
+    if order is None or len(set(ts)) != len(ts) or any(v not in order for _, v in arms): return arms
+    return sorted(arms, key=lambda a: order.index(a[1]))
+
 # ------------------------------------------------------------------ the items
 
 def builtin_formats():
@@ -149,6 +171,9 @@ def cell_errors():
     f = [(lit_value(m), m.group("v")) for m in re.finditer(STR + r"\s*=>\s*Ok\s*\(\s*CellErrorType::(?P<v>\w+)\s*\)", frm)]
     if not d or not f or len(re.findall(r"=>", disp)) != len(d) or len(re.findall(r"=>", frm)) != len(f) + 1:
         raise ValueError("match arms of an unknown form")
+    # the `FromStr` arms have pairwise distinct literal patterns: canonical order = the order of the `Display` arms (which is kept as
+    # in the source: it is the order of the hand model's list of error literals, not the declaration order of the enum)
+    f = canon_from_str(f, [v for v, _ in d] if len({v for v, _ in d}) == len(d) else None)
     return ("/-- translated from `src/structs/error.rs`: `impl Display for CellErrorType` (variant ↦ text) -/\n"
             "def cell_error_display : List (String × String) :=\n  [" + ", ".join(f"({lean_str(a)}, {lean_str(b)})" for a, b in d) + "]\n\n"
             "/-- translated from `src/structs/error.rs`: `impl FromStr for CellErrorType` (text ↦ variant; anything else is an error) -/\n"
@@ -165,6 +190,8 @@ def enum_table(path, rust, lean):
         r = [(lit_value(m), m.group("v")) for m in re.finditer(STR + r"\s*=>\s*(?:Ok\s*\(\s*)?Self::(?P<v>\w+)\s*\)?\s*,", frm)]
         if not d or not r or len(re.findall(r"=>", disp)) != len(d) or len(re.findall(r"=>", frm)) != len(r) + 1:
             raise ValueError("match arms of an unknown form")
+        order = decl_order(src, rust)
+        d, r = canon_to_str(d, order), canon_from_str(r, order)
         pairs = lambda l: "[" + ", ".join(f"({lean_str(a)}, {lean_str(b)})" for a, b in l) + "]"
         return (f"/-- translated from `{path}`: `get_value_string` (variant ↦ text) and `from_str` (text ↦ variant; anything else is an error), arm order kept -/\n"
                 f"def {lean} : List (String × String) × List (String × String) :=\n  ({pairs(d)},\n   {pairs(r)})\n")
@@ -245,6 +272,7 @@ def writer_pipelines():
         # the statement containing the escape call
         steps = replace_chain(body[m.start():stmt_end(body, m.start())])
         if any(k != "chars" or len(p) != 1 for k, p, _ in steps): raise ValueError(f"{fn}: replace pattern is not a single char")
+        if len(re.findall(r"\.\s*replace\s*\(", body)) != len(steps): raise ValueError(f"{fn}: a replace call outside the statement of the escape call")
         out.append(f"/-- translated from `src/writer/driver.rs` fn `{fn}`: quick-xml `{m.group(1)}`, then the `.replace` chain in order -/\n"
                    f"def {lean} : Pipeline :=\n  {{ base := .{ 'partialEscape' if m.group(1) == 'partial_escape' else 'escape' }, steps := {lean_steps(steps)} }}\n")
     return "\n".join(out)
@@ -323,7 +351,10 @@ def _enum_impls(path, ty):
     disp = block_after(src, "impl EnumTrait for " + ty, "{", "}")
     frm = block_after(src, "impl FromStr for " + ty, "{", "}")
     dflt = block_after(src, "impl Default for " + ty, "{", "}")
+    ENUM_ORDER[ty] = decl_order(src, ty)
     return disp, frm, dflt
+
+ENUM_ORDER = {}
 
 def enum_to_str(path, ty, lean):
     def f():
@@ -331,6 +362,7 @@ def enum_to_str(path, ty, lean):
         d = [(m.group(1), lit_value(m)) for m in re.finditer(r"Self::(\w+)\s*=>\s*" + STR + r"\s*,", disp)]
         if not d or len(re.findall(r"=>", disp)) != len(d):
             raise ValueError("get_value_string arms of an unknown form")
+        d = canon_to_str(d, ENUM_ORDER.get(ty))
         return (f"/-- translated from `{path}`: `impl EnumTrait for {ty}` (variant, text), order kept -/\n"
                 f"def {lean} : List (String × String) :=\n  [" + ", ".join(f"({lean_str(a)}, {lean_str(b)})" for a, b in d) + "]\n")
     return f
@@ -341,6 +373,7 @@ def enum_from_str(path, ty, lean):
         d = [(lit_value(m), m.group("v")) for m in re.finditer(STR + r"\s*=>\s*Ok\s*\(\s*Self::(?P<v>\w+)\s*\)", frm)]
         if not d or len(re.findall(r"=>", frm)) != len(d) + 1 or not re.search(r"_\s*=>\s*Err\s*\(\s*\(\s*\)\s*\)", frm):
             raise ValueError("from_str arms of an unknown form")
+        d = canon_from_str(d, ENUM_ORDER.get(ty))
         return (f"/-- translated from `{path}`: `impl FromStr for {ty}` (text, variant; anything else is `Err`), order kept -/\n"
                 f"def {lean} : List (String × String) :=\n  [" + ", ".join(f"({lean_str(a)}, {lean_str(b)})" for a, b in d) + "]\n")
     return f
@@ -410,6 +443,8 @@ def style_enum_table(ty, stem):
             raise ValueError("match arms of an unknown form")
         if not re.search(r"_\s*=>\s*Err\s*\(", frm):
             raise ValueError("no wildcard error arm")
+        order = decl_order(src, ty)
+        d, g = canon_to_str(d, order), canon_from_str(g, order)
         pairs = lambda l: "[" + ", ".join(f"({lean_str(a)}, {lean_str(b)})" for a, b in l) + "]"
         return (f"/-- translated from `src/structs/{stem}.rs`: `EnumTrait::get_value_string` of `{ty}` (variant ↦ text), its `FromStr`\n"
                 f"    (text ↦ variant; anything else is an error) and its `Default` variant -/\n"
@@ -462,6 +497,11 @@ ITEMS = [("builtin_format_codes", builtin_formats), ("formula_errors", formula_e
         [(lean, enum_table(path, rust, lean)) for lean, path, rust in ENUMS] + \
         [("enum_" + stem, style_enum_table(ty, stem)) for ty, stem in STYLE_ENUMS]
 
+ITEM_DEFS = {"date_format_replacements": ["date_format_replacements", "date_format_replacements_24", "date_format_replacements_12"],
+             "cell_error_display": ["cell_error_display", "cell_error_from_str"],
+             "write_start_tag_escape": ["write_start_tag_escape", "write_text_node_escape", "write_text_node_conversion_escape"],
+             "unescape_text_normalise": ["unescape_text_normalise", "get_attribute_value_normalise"]}
+
 HEADER = ("/-\n  GENERATED by tools/extract_tables.py from the current source of /repo — do not edit.\n"
           "  Constant tables and escape / normalisation pipelines the hand model copies.\n-/\n"
           "import Umya.Model.GenPrelude\nnamespace Umya.Gen\n\n")
@@ -473,8 +513,12 @@ def main():
         try:
             parts.append(f()); extracted.append(name)
         except Exception as ex:
-            m = re.search(r"(?:/--(?:(?!/--).)*?-/\n)def " + re.escape(name) + r"\b.*?(?=\n/--|\nend Umya\.Gen)", old, re.S)
-            if m: parts.append(m.group(0).rstrip("\n") + "\n")
+            # an item may consist of several definitions: the snapshot of every one of them is kept
+            kept = []
+            for dn in ITEM_DEFS.get(name, [name]):
+                m = re.search(r"(?:/--(?:(?!/--).)*?-/\n)def " + re.escape(dn) + r"\b.*?(?=\n/--|\nend Umya\.Gen)", old, re.S)
+                if m: kept.append(m.group(0).rstrip("\n") + "\n")
+            if kept: parts.append("\n".join(kept))
             fallbacks.append({"item": name, "reason": (type(ex).__name__ + ": " + str(ex))[:160]})
     text = HEADER + "\n".join(parts) + "\nend Umya.Gen\n"
     if text != old:
